@@ -157,6 +157,33 @@ def _cache_case(c):
     return fails, [len(seq)]
 
 
+def _cache2d_case(c):
+    """one cached GlobalRombergGrid object on an anisotropic 2D domain: each dimension must get the weights of ITS interval"""
+    from sparseSpACE.Grid import GlobalRombergGrid
+    from sparseSpACE.Extrapolation import SliceGrouping
+    a, b = c["a"], c["b"]
+    fails = []
+    for sg in (SliceGrouping.UNIT, SliceGrouping.GROUPED_OPTIMIZED):
+        key = {"grid": "GlobalRombergGrid_2d", "grouping": sg.name}
+        on = GlobalRombergGrid(np.array(a), np.array(b), do_cache=True, slice_grouping=sg)
+        for step, pair in enumerate(c["sequence"]):
+            coords = [list(t[0]) for t in pair]
+            lvs = [list(t[1]) for t in pair]
+            on.set_grid(coords, lvs)
+            for k in range(2):
+                off = GlobalRombergGrid(np.array([a[k]]), np.array([b[k]]), do_cache=False, slice_grouping=sg)
+                off.set_grid([coords[k]], [lvs[k]])
+                w_on = [float(x) for x in on.weights[k]]
+                w_off = [float(x) for x in off.weights[0]]
+                if w_on != w_off:
+                    fails.append(fail("weight_cache_transparent", "step %d dimension %d points %r: cached %r, uncached %r" % (step, k, coords[k], w_on, w_off), key))
+                    return fails, [len(c["sequence"])]
+                if abs(sum(w_on) - (b[k] - a[k])) > 1e-11 * (b[k] - a[k]):
+                    fails.append(fail("weights_sum", "dimension %d points %r: sum %r, length %r" % (k, coords[k], sum(w_on), b[k] - a[k]), key))
+                    return fails, [len(c["sequence"])]
+    return fails, [len(c["sequence"])]
+
+
 def _tree_ops_case(c):
     """GridBinaryTree is a singleton: after any sequence of operations the result must depend on the last init_tree only"""
     from sparseSpACE.Extrapolation import GridBinaryTree
@@ -203,7 +230,7 @@ def _tree_ops_case(c):
 
 def run_case(case):
     c = case["config"]
-    fails, out = {"ext": _ext_case, "balanced": _balanced_case, "cache": _cache_case, "treeops": _tree_ops_case}[c["kind"]](c)
+    fails, out = {"ext": _ext_case, "balanced": _balanced_case, "cache": _cache_case, "cache2d": _cache2d_case, "treeops": _tree_ops_case}[c["kind"]](c)
     return {"failures": fails, "canon": core.config_key(c), "outcome": tuple(out), "nontrivial": True, "evals": max(1, len(out))}
 
 
@@ -220,6 +247,16 @@ def cases(tier):
     for t0 in small:
         for t1 in small:
             out.append({"config": {"kind": "cache", "a": 0.0, "b": 1.0, "trees": [list(t0), list(t1)]}})
+    # anisotropic 2D domains / one object, several intervals: same tree SHAPE on intervals of different length
+    for (a, b) in (([0.0, 0.0], [1.0, 4.0]), ([-1.0, 2.0], [1.0, 3.0])):
+        fam0 = trees.tree_family(2, 3, a[0], b[0])
+        fam1 = trees.tree_family(2, 3, a[1], b[1])
+        for i, t0 in enumerate(fam0):
+            for j, t1 in enumerate(fam1):
+                seq = [[list(t0), list(t1)]]
+                if i != j:
+                    seq.append([list(fam0[j]), list(fam1[i])])
+                out.append({"config": {"kind": "cache2d", "a": a, "b": b, "sequence": seq}})
     menu = [["init", t[0], t[1]] for t in trees.tree_family(2, 3, 0.0, 1.0)[:6 if q else 9]] + [["force"], ["get"]]
     for n in (1, 2, 3):
         for seq in itertools.product(menu, repeat=n):
@@ -237,7 +274,7 @@ def main(ctx):
         ctx.absorb(case, res, group=case["config"]["kind"])
     for i in (4, len(cs) // 3, len(cs) - 5):
         ctx.add_sample(cs[i])
-    ctx.bounds = {k: sum(1 for c in cs if c["config"]["kind"] == k) for k in ("ext", "balanced", "cache", "treeops")}
+    ctx.bounds = {k: sum(1 for c in cs if c["config"]["kind"] == k) for k in ("ext", "balanced", "cache", "cache2d", "treeops")}
     return ctx.finish(
         rule="ext: one refinement tree x interval, all 24 variants (3 groupings x 2 slice versions x 2 container versions x forced "
              "balancing) decided per case; balanced: every balanced tree; cache: every ordered pair of small trees through the "
